@@ -211,6 +211,18 @@ CHECKS = {
              'the page-fault decoder) are not re-assigned.',
         technique='generated-table differential against a reference parser + table-substitution metamorphism on the real '
                   'front-end'),
+    'C14': dict(
+        category='exploration', design_ref='DESIGN.md section 4, C14',
+        text='Runtime monitoring: generated dumps (thread maps with duplicate tids, new-thread/exec pairs, terminate-pid '
+             'and sampler thread-data records that re-map stream threads, a thread re-mapped after it emitted a trace, '
+             'an undeclared thread) are formatted by the real front-end under all 2^6 event-line and 2^3 trace/'
+             'callstack-line column configurations, raw and wall-clock timestamps, colour on/off. Oracles: composition '
+             '(each line == concatenation of separately measured columns in the fixed order + body), colour '
+             '(ANSI-stripped == plain) and a table model replaying the map-updating records up to the trigger event.',
+        note='Texts printable without ESC/line terminators; inclusive and exclusive readings accepted for a record that '
+             're-maps tables at its own trigger; event lines use the thread map only.',
+        technique='exhaustive column-configuration sweep + composition/colour oracles + table reference model replayed '
+                  'in lock-step with the stream'),
 }
 
 PENDING_REASON = 'check not yet built in this session (design in DESIGN.md section 4); not claimed until it exists'
